@@ -222,11 +222,19 @@ def judge_mid(out, sub, ref, x1, x2, m, fallback):
         out.bad("%s/midpoint/not-strictly-inside/%s" % (sub, "fallback" if fallback else "primary"),
                 "%s: get_mid_point(%r, %r) = %r" % (ref.describe(), x1, x2, m))
         return False
+    P = ref.prob(x1, x2)
     if fallback:
         out.cls("mid-fallback")
+        # A fallback is legitimate only where the halving point cannot be resolved in double precision. Where the
+        # interval carries a probability >= 1e-9 (cdf values 1e7 ulps apart) and is wider than 1e-9 of its end points
+        # the ppf branch must succeed; otherwise a fallback result is only required to be strictly interior.
+        feasible = P >= 1e-9 and (math.isinf(x1) or math.isinf(x2) or x2 - x1 > 1e-9 * max(abs(x1), abs(x2), 1e-300))
+        if not feasible:
+            return True
+        out.bad("%s/midpoint/fallback-taken-although-halving-point-exists" % sub,
+                "%s: get_mid_point(%r, %r) = %r, P(interval)=%.6g" % (ref.describe(), x1, x2, m, P))
         return True
     out.cls("mid-primary")
-    P = ref.prob(x1, x2)
     pl, pr = ref.prob(x1, m), ref.prob(m, x2)
     # tolerance: 1e-6 relative (statement), absolute slack 1e-13 = 100x the cdf rounding (1e-15) seen in deep tails
     if not abs(pl - pr) <= 1e-6 * P + 1e-13:
@@ -283,7 +291,8 @@ def judge_weights(out, sub, ref, pts, w, boundary, tol_sum):
     else:
         # not a clause of the statement; recorded so that the evidence shows how exact the moments are
         dev = float(np.max(np.abs(w - ref_weights(ref, pts, boundary))))
-        out.info["max_dev_from_exact_moment_weights"] = max(out.info.get("max_dev_from_exact_moment_weights", 0.0), dev)
+        key = "max_dev_from_exact_moment_weights" + ("_far_offset" if max(abs(ref.a), abs(ref.b)) > 25 * (ref.b - ref.a) else "")
+        out.info[key] = max(out.info.get(key, 0.0), dev)
 
 
 def explain_negative_assert(op, refs, grids):
@@ -401,17 +410,39 @@ def run_weights(case):
         levels.append(lv)
     if not boundary and any(len(p) < 3 for p in grids):
         return out                                             # cannot happen by construction (a split always succeeds or is reported)
-    try:
-        with quiet():
-            grid.set_grid(grids, levels)
-    except AssertionError as e:
-        if "calculated negative weight" not in str(e):
-            raise
-        why = explain_negative_assert(op, refs, grids)
-        if why is None:
-            raise
-        out.bad(sub + SIG_FIRST_MOMENT, why)
-        out.cls("negative-weight-assertion")
+    # the same grid object (and so the same cached per-interval moments) first sees a coarser grid of the same tree
+    coarse = []
+    for d in range(dim):
+        pts, lv = grids[d], levels[d]
+        if gspecs[d]["kind"] == "tree":
+            cut = max(lv) // 2 if max(lv) > 1 else max(lv)
+            keep = [i for i in range(len(pts)) if lv[i] <= cut]
+        else:
+            keep = [i for i in range(len(pts)) if i % 2 == 0 or i == len(pts) - 1]
+        if len(keep) < (2 if boundary else 3):
+            keep = list(range(len(pts)))
+        coarse.append(keep)
+    def set_grid(glist, llist):
+        try:
+            with quiet():
+                grid.set_grid(glist, llist)
+            return True
+        except AssertionError as e:
+            if "calculated negative weight" not in str(e):
+                raise
+            why = explain_negative_assert(op, refs, glist)
+            if why is None:
+                raise
+            out.bad(sub + SIG_FIRST_MOMENT, why)
+            out.cls("negative-weight-assertion")
+            return False
+
+    cgrids = [[grids[d][i] for i in coarse[d]] for d in range(dim)]
+    if not set_grid(cgrids, [[levels[d][i] for i in coarse[d]] for d in range(dim)]):
+        return out
+    for d in range(dim):
+        judge_weights(out, sub, refs[d], cgrids[d], grid.weights[d], boundary, 1e-4 if refs[d].fam == "Normal" else 1e-6)
+    if not set_grid(grids, levels):
         return out
     nt = False
     for d in range(dim):
@@ -568,6 +599,13 @@ def run_moments(case):
         with quiet():
             E, V = op.calculate_expectation_and_variance(sa)
         judge_moments(out, sub, E, V, layout, tol_s, "after evaluation %d:" % k)
+        # the 1D grids of the component grid evaluated last are refinement-tree grids produced by the real history
+        # (including rebalancing): the weight clauses apply to them as well
+        for d in range(dim):
+            pts = [float(x) for x in grid.coordinate_array_with_boundary[d]]
+            if len(pts) >= (2 if case["boundary"] else 3):
+                judge_weights(out, sub, refs[d], pts, grid.weights[d], case["boundary"],
+                              1e-4 if refs[d].fam == "Normal" else 1e-6)
 
     def before_refine(k):
         st_["before"] = [len(drive.dw_objects(sa, d)) for d in range(dim)]
